@@ -134,6 +134,10 @@ def mandatoryAfterDefault : List Attr → Bool
 
 /-! ### the table -/
 
+/-- how many times the field is given a default: `default=`, `factory=`, each `@x.default` -/
+def defaultSources (f : Field) : Nat :=
+  (if f.dflt then 1 else 0) + (if f.factory then 1 else 0) + (if f.deco then 1 + f.decoMore else 0)
+
 inductive Rule where
   | mandatoryAfterDefault   -- also via inheritance or a field transformer
   | orderWithoutEq          -- class level
@@ -178,7 +182,7 @@ def Rule.applies (c : Case) : Rule → Bool
     c.made.any (fun f => f.cmp == .none && f.eq == .f && (f.order == .t || f.order == .key))
   | .fieldCmpMixed => c.made.any (fun f => f.cmp != .none && (f.eq != .none || f.order != .none))
   | .defaultAndFactory => c.made.any (fun f => f.dflt && f.factory)
-  | .secondDefault => c.made.any (fun f => f.deco && (f.dflt || f.factory))
+  | .secondDefault => c.made.any (fun f => f.deco && decide (defaultSources f ≥ 2))
   | .annotationAndType => (ownSource c c.annotationMode).any (fun f => f.annotated && f.typeArg)
   | .unannotated => c.autoAttribs == .t && !c.these && c.fields.any Field.unann
   | .cacheHashNoHash => c.cacheHash && !c.hashGenerated
@@ -231,12 +235,12 @@ def baseOk (c : Case) : Bool :=
 
 def Field.bareOk (f : Field) : Bool :=
   !f.bare ||
-  (f.annotated && !f.factory && !f.deco && f.init && !f.kwOnly && f.cmp == .none && f.eq == .none &&
+  (f.annotated && !f.factory && !f.deco && f.decoMore == 0 && f.valDeco == 0 && f.init && !f.kwOnly && f.cmp == .none && f.eq == .none &&
    f.order == .none && f.hash == .none && f.onSetattr == .none && !f.typeArg && !f.validator && !f.converter)
 
 def wf (c : Case) : Bool :=
   distinct (c.fields.map (·.name)) && distinct (c.baseAttrs.map (·.name)) &&
-  c.fields.all Field.bareOk &&
+  c.fields.all Field.bareOk && c.fields.all (fun f => f.decoMore == 0 || f.deco) &&
   c.onSetattr != .dflt &&
   (c.api != .define || c.cmp == .none) &&
   (c.api != .makeClass || (c.these && c.autoAttribs == .unset)) &&
